@@ -231,7 +231,7 @@ pub fn run(ctx: &mut Ctx) {
     let deep = ctx.tier.thorough();
     let thorough = true;
     let cases = crate::gram::generate(if deep { 3 } else { 2 });
-    ctx.rule = "(a) every C01 program in canonical spelling, every base document x every trivia menu member at every gap at once and at each single gap (all members), OSCAT description headers with 1-4 byte characters, texts with an invalid character; (b) every C01 program that parses: identifier occurrences vs Id spans; (c) every single-token deletion / duplication / neighbour swap of every base document and every C01 program (thorough: of every 20th of the larger program set) : labels of all diagnostics; (d) every single-fault world of C02 (deviation bound 1) in five spellings (one line per declaration, one lexeme per line with LF and CRLF, a non-ASCII comment before every lexeme, two documents) opened in the real server: every published range must be the label's line / UTF-16 column; distinct = distinct source text".into();
+    ctx.rule = "(a) every C01 program in canonical spelling, every base document x every trivia menu member at every gap at once and at each single gap (all members), OSCAT description headers with 1-4 byte characters, texts with an invalid character; (b) every C01 program that parses: identifier occurrences vs Id spans; (c) every single-token deletion / duplication / neighbour swap of every base document and every C01 program (quick: of every program with at most one deviation and every third with two; thorough: every program with at most two and every 20th with three) : labels of all diagnostics; (d) every single-fault world of C02 (deviation bound 1) in five spellings (one line per declaration, one lexeme per line with LF and CRLF, a non-ASCII comment before every lexeme, two documents) opened in the real server: every published range must be the label's line / UTF-16 column; distinct = distinct source text".into();
     ctx.assumptions.push("line = number of LF before the span start; column accepted in bytes, chars or UTF-16 units as long as one unit fits every token of the document".into());
     ctx.assumptions.push("inside a blanked OSCAT header token text may be blanks instead of the original characters, but must have the same byte length".into());
 
@@ -363,9 +363,11 @@ pub fn run(ctx: &mut Ctx) {
 
     // ---- (c) single-token mutants: labels of whatever is diagnosed
     let mut hosts: Vec<(String, Vec<Lexeme>)> = corpus::docs().into_iter().map(|d| (format!("doc:{}", d.name), d.lx.v)).collect();
-    let stride = if deep { 20 } else { 1 };
+    // quick: every program with at most one deviation and every third program with two;
+    // thorough: every program with at most two deviations and every 20th with three
+    let (full, stride) = if deep { (2, 20) } else { (1, 3) };
     for (i, c) in cases.iter().enumerate() {
-        if i % stride == 0 {
+        if c.labels.len() <= full || i % stride == 0 {
             hosts.push((c.id(), c.lx.v.clone()));
         }
     }
